@@ -5,6 +5,7 @@ wires the composed search path into that delegation; sys.path is swapped and res
 it; the one precedence rule jedi implements itself (from-import: attribute first, then
 sub-module) is the same in both sibling implementations; relative levels use the package."""
 import ast
+import re
 
 from ..core import AnchorError, call_name, decorators, norm, short, own_nodes, kwarg, FUNC_TYPES
 from ..cfg import cfg_of
@@ -240,8 +241,51 @@ def rule_f(repo, chk):
     path_prefix_check(repo, chk, 'C10.f', ['jedi.inference.sys_path', 'jedi.inference.imports'], checked=PREFIX_CHECKED, floor=1)
 
 
+SEARCH_PATH_MODULES = ['jedi.inference.value.namespace', 'jedi.inference.imports', 'jedi.api.project', 'jedi.inference.compiled.subprocess.functions']
+REORDER_TRIAGED = {
+    ('jedi.inference.imports', '_load_builtin_module', 'set(project._get_base_sys_path(inference_state))'):
+        'a membership table (safe_paths) used to FILTER sys_path in its own order, never iterated',
+}
+
+
+def rule_g(repo, chk):
+    chk.clause('C10.g', 'search order is meaning: a list of search locations (sys.path entries, the portions of a namespace package, __path__) is '
+                        'handed on in the order it was delivered - in the modules that carry such lists no sorted()/set()/reversed()/'
+                        'frozenset() is applied to a value named like a path list (the first portion that has a sub-module wins, as in '
+                        'Python); ImplicitNamespaceValue stores the portions it is given unchanged')
+    n = 0
+    pat = re.compile(r'(^|_)(paths?|sys_path|portions?)$')
+    for mn in SEARCH_PATH_MODULES:
+        m = repo.module(mn)
+        for q, f in sorted(m.defs.items()):
+            if not isinstance(f, FUNC_TYPES):
+                continue
+            for c in own_nodes(f):
+                if isinstance(c, ast.Call) and isinstance(c.func, ast.Name) and c.func.id in ('sorted', 'set', 'frozenset', 'reversed') and c.args:
+                    a = c.args[0]
+                    root = a
+                    while isinstance(root, ast.Call) and root.args and isinstance(root.func, ast.Name) and root.func.id in ('set', 'frozenset', 'list', 'tuple'):
+                        root = root.args[0]
+                    ident = root.id if isinstance(root, ast.Name) else root.attr if isinstance(root, ast.Attribute) else \
+                        (call_name(root) if isinstance(root, ast.Call) else None)
+                    if not ident or not (pat.search(ident) or 'sys_path' in ident):
+                        continue
+                    n += 1
+                    tk = (mn, q, norm(c))
+                    if tk in REORDER_TRIAGED:
+                        chk.ob('C10.g', True, c, '`%s` in %s: triaged (%s)' % (short(c, 60), q, REORDER_TRIAGED[tk]))
+                        continue
+                    chk.ob('C10.g', False, c, 'the order of the search locations `%s` in %s is kept' % (short(a, 40), q),
+                           '`%s` re-orders or de-orders them' % short(c, 60), key='path-order|%s:%s|%s' % tk)
+    ns = repo.find('jedi.inference.value.namespace', 'ImplicitNamespaceValue.__init__')
+    st = [a for a in stmts_in(ns, ast.Assign) if norm(a.targets[0]) == 'self._paths']
+    ok = len(st) == 1 and (norm(st[0].value) == 'paths' or norm(st[0].value) in ('list(paths)', 'tuple(paths)'))
+    chk.ob('C10.g', ok, ns, 'ImplicitNamespaceValue keeps the portions in the order importlib delivered them', str([norm(a.value) for a in st]))
+    chk.notes['C10.g re-ordering calls on path lists examined'] = n
+
+
 def describe(chk):
     chk.undecided('agreement with importlib over all directory trees (run-time oracle); the path -> dotted name direction (transform_path_to_dotted)')
 
 
-RULES = [('C10.a', rule_a), ('C10.b', rule_b), ('C10.c', rule_c), ('C10.d', rule_d), ('C10.e', rule_e), ('C10.f', rule_f)]
+RULES = [('C10.a', rule_a), ('C10.b', rule_b), ('C10.c', rule_c), ('C10.d', rule_d), ('C10.e', rule_e), ('C10.f', rule_f), ('C10.g', rule_g)]
